@@ -141,6 +141,9 @@ def run_variant(prop, variant, binp, tier, seed, deadline):
     env = dict(os.environ)
     env['ASAN_OPTIONS'] = 'detect_leaks=0:exitcode=87:allocator_may_return_null=1:malloc_context_size=8:max_allocation_size_mb=2048:detect_stack_use_after_return=0'
     env['UBSAN_OPTIONS'] = 'halt_on_error=1:exitcode=88:print_stacktrace=1'
+    auxdir = os.path.join(BUILD, 'aux-%s-%s-%d' % (prop, variant['name'], os.getpid()))
+    shutil.rmtree(auxdir, ignore_errors=True); os.makedirs(auxdir)
+    env['BSX_AUX_DIR'] = auxdir   # harnesses that feed an external (Python) oracle write their case files here
     cmd = [binp, '--tier', tier, '--out', out, '--seed', str(seed), '--jobs', str(os.cpu_count() or 16), '--deadline', str(deadline)]
     r = subprocess.run(cmd, stdout=subprocess.PIPE, stderr=subprocess.STDOUT, text=True, env=env)
     if r.returncode != 0 or not os.path.exists(out):
@@ -149,7 +152,7 @@ def run_variant(prop, variant, binp, tier, seed, deadline):
     res = json.load(open(out))
     os.remove(out)
     res['variant'] = variant['name']
-    post = CHECKS[prop].get('post')
+    res['aux_dir'] = auxdir
     return res
 
 
@@ -201,8 +204,10 @@ def main():
     results = []
     for v, b in bins:
         results.append(run_variant(prop, v, b, tier, seed, deadline))
-    if 'post' in chk:   # python oracle pipeline etc.
+    if 'post' in chk:   # external oracle pipeline: may append to res['violations'] / res['samples'] and adjust counters
         chk['post'](results, tier)
+    for r in results:
+        shutil.rmtree(r.get('aux_dir', ''), ignore_errors=True)
 
     findings, fixed = load_known()
     findings = [f for f in findings if f['prop'] == prop]
